@@ -13,3 +13,4 @@ import MicroHttp.Props.Tables
 #print axioms MicroHttp.C10.history_inv
 #print axioms MicroHttp.Tables.client_write_state
 #print axioms MicroHttp.Tables.no_shared_state
+#print axioms MicroHttp.Tables.no_interior_mutability
